@@ -333,9 +333,13 @@ void AbstractDiscreteDistribution::discretizeEqualProportions()
 
       double mean = Expectation(intMinMax_->getUpperBound()) - Expectation(intMinMax_->getLowerBound());
 
-      for (i = 0; i < numberOfCategories_; i++)
+      // no proportionality factor exists when the medians sum to zero (0/0 gave NaN class values): they are kept as they are
+      if (t != 0)
       {
-        values[i] *= mean / t / ec;
+        for (i = 0; i < numberOfCategories_; i++)
+        {
+          values[i] *= mean / t / ec;
+        }
       }
     }
     else
